@@ -46,7 +46,7 @@ m = {
    'technique': 'deterministic simulation with fault injection: seeded search over operation histories, thread schedules and fault sequences, bit-for-bit against fresh-interpreter-state references',
    'level_claimed': {
      'category': 'exploration',
-     'text': 'Seeded exploration of histories (<=12 ops per caller: construct, call, set/restore n/order/method, shared step generators, cache clear/evict/prewarm, drop+gc, re-entrant functions), of schedules (1..16 baton-passing threads pre-empted at library source lines, cache accesses and user-function boundaries) and of fault sequences (f raising at its k-th evaluation, asynchronous abort at the j-th library line, cache clear/evict/prewarm/flood, drop+gc+respawn); a second stage replays each threaded run up to a recorded touch of a shared object, parks that caller and lets the conflicting callers run to completion inside the window. Every un-faulted call is compared bit-for-bit with two references evaluated in forks of a never-used interpreter: the same object rebuilt with only its own setter sequence, and a brand-new object with the current configuration. Sampling, not proof; the property quantifies over histories and schedules, which is exactly what is sampled.',
+     'text': 'Seeded exploration of histories (<=12 ops per caller: construct, call, set/restore n/order/method, shared step generators, directionaldiff, Limit/Residue mini-histories at singular and regular points with method/order changed and restored, cache clear/evict/prewarm, drop+gc, re-entrant functions), of schedules (1..16 baton-passing threads pre-empted at library source lines, cache accesses and user-function boundaries) and of fault sequences (f raising at its k-th evaluation, asynchronous abort at the j-th library line, cache clear/evict/prewarm/flood, drop+gc+respawn); a second stage replays each threaded run up to a recorded touch of a shared object, parks that caller and lets the conflicting callers run to completion inside the window. Every un-faulted call is compared bit-for-bit with two references evaluated in forks of a never-used interpreter: the same object rebuilt with only its own setter sequence, and a brand-new object with the current configuration. Sampling, not proof; the property quantifies over histories and schedules, which is exactly what is sampled.',
      'design_ref': 'DESIGN.md sections 3 and 4'},
    'level_note': 'Trusts: sys.settrace line/call events deterministic; fork() faithfully copies the pristine fork-server state; numpy/scipy bit-reproducible single-threaded (re-tested each run by the determinism self-test, which also fingerprints the allocator state). Pre-emption granularity is a source line, a Python-level call made from a library line, or a seam access - not a bytecode; C-level callees give no pre-emption point. Asynchronous aborts are injected at library line boundaries outside `with` lines and outside library critical sections.',
   },
@@ -66,7 +66,7 @@ C14 = {
      'category': 'exploration',
      'text': 'Seeded exploration of streaming histories (lengths 1..200, limexp 3..60, up to 6 live instances fed in scheduler-chosen order on 1..8 threads, retire/respawn). After every feed: EpsAlg is compared with the highest even-order entry of an exact rational epsilon table (witness-scaled tolerance, vanishing differences excluded with a margin); Dea must not raise, must stay finite and non-negative, must agree with dea3 / EpsAlg on the first three terms outside the guards, and must keep abserr >= 5 eps |result| from the third term on; every instance must equal bit-for-bit a lone instance fed the same stream in a fresh interpreter (isolation). Caveat stated in DESIGN 5: there is no clock or I/O here; the schedule dimension is only which instance/thread advances next.',
      'design_ref': 'DESIGN.md section 5'},
-   'level_note': 'Trusts the harness exact-rational Wynn table (about 30 lines) and the witness-scaled tolerance rule; exact EpsAlg comparison only for prefixes <= 60 terms (quick) / 120 (thorough) and only where the double witness shows the table entry is well conditioned; Dea values after the third term are not pinned by the property (only totality, finiteness, floor, isolation).',
+   'level_note': 'Trusts the harness exact-rational Wynn table (about 30 lines) and the witness-scaled tolerance rule; exact EpsAlg comparison for prefixes <= 60 terms (quick; dedicated deep runs of 105..200 terms in 4 % of the sequential runs) / 200 (thorough) and only where the double witness shows the table entry is well conditioned; Dea values after the third term are not pinned by the property (only totality, finiteness, floor, isolation).',
 }
 import os, sys
 if os.path.exists(os.path.join(os.path.dirname(os.path.abspath(__file__)), 'checks', 'c14.py')):
